@@ -37,6 +37,11 @@ func (w *World) reopenResized(rs resizeSpec) bool {
 	}
 	w.Cfg.MaxPages = rs.NewPages
 	w.Cfg.MaxSizeOdd = rs.NewOdd
+	if rs.NewPages > 0 && int(w.Cfg.InitMetaArea) >= rs.NewPages-2 {
+		// Options.InitMetaArea only matters when a file is created, but Open
+		// validates it against MaxSize: keep the option set valid
+		w.Cfg.InitMetaArea = 2
+	}
 	if rs.NewPages > 0 && (rs.OldPages == 0 || rs.NewPages < rs.OldPages) {
 		// pages beyond the new limit are released, not owned by anyone
 		w.NoCoverage = true
